@@ -6,8 +6,13 @@ optional pre-existing PS/HP phase, decoy multi-ALT / duplicate records with phas
   (plus: generator-written phased VCFs with interleaved / nested phase sets as the phase input of run Q and as in-process
    input of the real `phased_blocks_as_reads` — whatshap's own outputs only ever have contiguous sets)
 
-  A = phase(in, tag1)   B = phase(in, tag2)   C = phase(A, tag2 [, --sample subset])   U = unphase(C)
-  D = phase(U, tag1)    Q = phase(in, phase input = A only)            (tag2 = the other tag)
+  A = phase(in, tag1)   B = phase(in, tag2)   C = phase(A, tag2 [, --sample subset] [, --chromosome first])   U = unphase(C)
+  D = phase(U, tag1)    E = phase(C, tag1)    Q = phase(in, phase input = A only)            (tag2 = the other tag)
+
+File-level stream (in-process, `run_file_case`): whole multi-sample / multi-chromosome files through the real reader
+(== Lean `c09.readfile` == independent decoder), the real PhasedInputReader (== `c09.phaseinput`) and the real
+PhasedVcfWriter.write with arbitrary super-reads and both values of remove_existing_phasing (== `c09.writefile` / `c09.writex`,
+plus the property oracle on the output).
 
 Oracle on every phase output, per target sample (independent decoder on the pysam-parsed records, expected
 phase from the trace): every decodable phase statement is the one this run wrote and every written one decodes
@@ -21,6 +26,8 @@ import json, os, shutil
 from harness.gen import sim
 from harness.gen import c04_records as R
 from harness.gen.c09_hist import gen_case, build_inputs, gen_interleaved_case, build_interleaved
+from harness.gen.c09_file import gen_file_case, build_file
+from harness.gen import c09_fileops as F
 
 RULE = ("one history of 6 CLI runs (phase with PS, phase with HP, re-phase of the phased file with the other tag "
         "(optionally a sample subset), unphase, phase again, phase with the phased VCF as only phase input) over a "
@@ -29,13 +36,22 @@ RULE = ("one history of 6 CLI runs (phase with PS, phase with HP, re-phase of th
         "variants; distinct = distinct (generator seed, options). Additionally generator-written phase inputs (PS or HP encoded, "
         "1-3 samples, 2-3 phase sets per sample laid out interleaved / nested / contiguous): the real phased_blocks_as_reads "
         "in-process, and run Q on them; non-trivial there: a multi-variant set has a member of another multi-variant set "
-        "between two of its members")
+        "between two of its members. File-level stream (in-process): one variant file and 1-2 phase files over 1-3 contigs and "
+        "samples (encodings per file / contig / sample, malformed HP, other ploidies, PQ, skipped and duplicate records, split "
+        "contigs, missing samples): the real VcfReader(phases=True) on whole files, the real PhasedInputReader and the real "
+        "PhasedVcfWriter.write with arbitrary super-reads, target / chromosome subsets and both values of "
+        "remove_existing_phasing; non-trivial there: a table with a phase, a query with pseudo reads, a write() that had to "
+        "state a phase")
 MANIFEST = dict(
     text="Lean 4 theorems about the encoders (_set_PS/_set_HP), the tag-independent removal and the two decoders: "
          "ps_roundtrip, hp_roundtrip, decode_written (master lemma: after write exactly the new statement decodes, through "
          "the decoder of the tag only), ps_hp_equivalent, rephase_no_stale_phase, pseudo reads complementary/cover; F4 "
          "witnesses on the faithful model; tied to the working tree by pipeline histories of real CLI runs decoded by "
-         "whatshap's reader, the Lean decoder and an independent decoder",
+         "whatshap's reader, the Lean decoder and an independent decoder; file level: reader with ploidy and per-chromosome "
+         "state (reader_rows_sorted, reader_phase_is_genotype_order), reader after writer on sorted chromosomes with duplicate "
+         "positions and --only-snvs and on whole files (read_written_chrom, read_written_file), the chromosome loop "
+         "(rephase_file_no_stale_phase), PhasedInputReader (phase_input_reader_reads) and the chain phase-input file -> reader -> "
+         "pseudo reads -> solver (phase_input_reproduces_sets)",
     design_ref="DESIGN.md §5 C09, §6 F4",
     note="trusted: Lean kernel; hand-written model (differential: quick 8 histories = 48 CLI runs, thorough 60); the HP text "
          "codec and htslib parsing are in the harness. F4 (a: old encoding kept when re-phasing with the other tag, "
@@ -47,6 +63,8 @@ MANIFEST = dict(
 ASSUMPTIONS = [
     "phase sets of the pseudo-read run fit under the coverage cap (checked per case: at most 7 blocks per sample and chromosome)",
     "the trace hook reports the super-reads and components that `PhasedVcfWriter.write` received",
+    "htslib/pysam parsing, the HP text codec and the float -> int conversion of PQ are harness glue (typed values in the model)",
+    "on a chromosome that --chromosome does not request no sample is a target: the records must be unchanged there",
 ]
 
 
@@ -149,7 +167,7 @@ class Hist:
         self.fails.append(key)
         self.ctx.fail(f"[{step}] {what}", self.case, key=key)
 
-    def phase(self, name, variant_vcf, phase_inputs, tag, fa, samples=None):
+    def phase(self, name, variant_vcf, phase_inputs, tag, fa, samples=None, chroms=None):
         o = self.opts
         out = os.path.join(self.d, name + ".vcf")
         a = ["phase", "-o", out, "--tag", tag]
@@ -162,6 +180,8 @@ class Hist:
             a += ["--only-snvs"]
         for s in samples or []:
             a += ["--sample", s]
+        for c in chroms or []:
+            a += ["--chromosome", c]
         rc, so, se, trace = R.run_whatshap(self.ctx, a + [variant_vcf] + phase_inputs, trace=os.path.join(self.d, name + ".trace"))
         self.ctx.evaluated()
         if rc != 0:
@@ -173,7 +193,7 @@ class Hist:
             else:
                 self.ctx.observe("clean command-line error: " + last[:80])
             return None
-        return {"name": name, "out": out, "trace": trace, "tag": tag, "in": variant_vcf, "targets": samples}
+        return {"name": name, "out": out, "trace": trace, "tag": tag, "in": variant_vcf, "targets": samples, "chroms": chroms}
 
     def check_output(self, run, samples):
         """round trip / no stale phase / no mixed encoding per target sample; returns {sample: decoded map} or None"""
@@ -188,6 +208,21 @@ class Hist:
         elig = eligible_first(recs, o["only_snvs"])
         exp = expected_phases(run["trace"])
         targets = run["targets"] or samples
+        rin = None
+        if run.get("chroms"):
+            # a chromosome that --chromosome did not request is "left unchanged": there no sample is a target of this run, and
+            # what decodes must be what the run's input file says (for every sample)
+            _, _, rin = R.load_vcf(run["in"])
+            if len(rin) != len(recs):
+                self.fail("the output has another number of records than the input", "record-count", name)
+                return None
+            for s in samples:
+                si = samples.index(s)
+                for ri, ro in zip(rin, recs):
+                    if ri["chrom"] not in run["chroms"] and indep_decode(ri, si) != indep_decode(ro, si):
+                        self.fail(f"sample {s} {ri['chrom']}:{ri['pos'] + 1}: chromosome not requested by --chromosome, but the phase "
+                                  f"information changed from {indep_decode(ri, si)} to {indep_decode(ro, si)}", "unrequested-chrom-changed", name)
+                        return None
         decoded = {}
         reqs, meta = [], []
         for s in targets:
@@ -196,6 +231,10 @@ class Hist:
             bad = None
             for i, r in enumerate(recs):
                 hp, gp = indep_decode(r, si)
+                if run.get("chroms") and r["chrom"] not in run["chroms"]:
+                    if i in elig:
+                        dec[(r["chrom"], r["pos"])] = gp if gp is not None else hp
+                    continue
                 want = exp.get(s, {}).get((r["chrom"], r["pos"])) if i in elig else None
                 if hp is not None and gp is not None and bad is None:
                     bad = ("mixed-encoding", f"sample {s} {r['chrom']}:{r['pos'] + 1}: the call carries HP ({hp}) and a phased GT/PS ({gp}) at once")
@@ -283,8 +322,19 @@ def run_case(ctx, case, n):
     if decA is not None and any(len(v) >= 2 for s in samples for v in blocks_of(decA[s]).values()):
         ctx.nontrivial((case["gen_seed"], json.dumps(o, sort_keys=True), json.dumps(case["vcf"], sort_keys=True)))
     # re-phase the phased file with the other tag
-    C = h.phase("C", A["out"], [bam], tag2, fa, samples=subset) if A and decA is not None else None
+    contigs = list(sc.contigs)
+    csub = contigs[:1] if (o.get("chrom_subset") and len(contigs) > 1) else None
+    ctx.dist("hist_C", ("samples" if subset else "all") + "/" + ("chrom1" if csub else "all") + ("/noreads" if case["vcf"].get("noreads") else ""))
+    C = h.phase("C", A["out"], [bam], tag2, fa, samples=subset, chroms=csub) if A and decA is not None else None
     decC = h.check_output(C, samples) if C else None
+    if C and decC is not None and o.get("back"):
+        # tag1 -> tag2 -> tag1 without unphase in between (C may have re-phased only some samples / chromosomes: the file then
+        # carries both encodings, in different samples or chromosomes)
+        E = h.phase("E", C["out"], [bam], tag1, fa)
+        decE = h.check_output(E, samples) if E else None
+        if decE is not None and decA is not None and not o["distrust"] and decE != decA and json.dumps(E["trace"], sort_keys=True) == json.dumps(A["trace"], sort_keys=True):
+            h.fail("phase(tag1) -> re-phase(tag2) -> re-phase(tag1) decodes differently from the first phasing although the solver result is identical",
+                   "history-differs", "E")
     D = None
     if C and decC is not None:
         rc, so, se, _ = R.run_whatshap(ctx, ["unphase", C["out"]])
@@ -494,22 +544,346 @@ def phase_q(h, case, V, P):
     return {"name": "Q", "out": out, "trace": trace, "tag": case["tag"], "in": V, "targets": None}
 
 
+# ------------------------------------------------------------------------------------------------
+# file-level stream (in-process): whole multi-sample / multi-chromosome files through the real reader, the real
+# PhasedInputReader and the real PhasedVcfWriter.write (both values of remove_existing_phasing)
+# ------------------------------------------------------------------------------------------------
+
+def run_file_case(ctx, case, n):
+    import random
+    from whatshap.vcf import VcfReader
+    d = os.path.join(ctx.workdir(), f"case{n}")
+    shutil.rmtree(d, ignore_errors=True)
+    b = build_file(case, d)
+    os_ = case["only_snvs"]
+    rng = random.Random(case["gen_seed"] ^ 0xF11E)
+    h = Hist(ctx, case, d, opts={"distrust": False, "include_hom": False, "only_snvs": os_})
+    for k in ("enc_mode", "pq", "n_contigs", "n_samples", "n_files"):
+        ctx.dist("file_" + k, case[k])
+
+    # ---- 1. the reader on every phase file, whole file, all samples at once
+    parsed, lean_tables, real_res = [], [], []
+    reqs = []
+    for P in b["P"]:
+        _, psamples, recs = R.load_vcf(P)
+        parsed.append((psamples, recs))
+        reqs.append(F.readfile_request(recs, psamples, os_))
+    answers = ctx.model.ask_many(reqs)
+    all_ok = True
+    for P, (psamples, recs), ans in zip(b["P"], parsed, answers):
+        res = F.real_read_file(P, os_)
+        ctx.evaluated()
+        real_res.append(res)
+        lean_tables.append(ans)
+        kind = res.get("error", "ok")
+        ctx.dist("file_reader_outcome", kind.split(":")[0])
+        if "error" in res or "error" in ans:
+            all_ok = False
+            if res.get("error") != ans.get("error"):
+                ctx.disagree("c09.readfile (outcome)", case, res.get("error", "ok"), ans.get("error", "ok"))
+            continue
+        if res["ploidy"] != ans["ploidy"]:
+            ctx.disagree("c09.readfile (ploidy)", case, res["ploidy"], ans["ploidy"])
+        it, lt = F.canon_real_tables(res), F.canon_lean_tables(ans)
+        if it != lt:
+            diff = next(((x, y) for x, y in zip(it, lt) if x != y), (len(it), len(lt)))
+            ctx.disagree("c09.readfile", case, str(diff[0])[:600], str(diff[1])[:600])
+        # independent decoder, all samples: what the reader stores is what the record says (multi-sample view)
+        acc = dict()
+        for (chrom, keep), (_, _, rows) in zip(F.accepted_indices(recs, os_), res["tables"]):
+            if len(keep) != len(rows):
+                ctx.disagree("reader keeps other records than the skipping rules say", case, [r[0] for r in rows], [recs[i]["pos"] for i in keep])
+                continue
+            for i, (pos, ref, alt, calls) in zip(keep, rows):
+                for si, (g, p, q) in enumerate(calls):
+                    hp, gp = indep_decode(recs[i], si)
+                    want = gp if gp is not None else hp
+                    got = None if p is None else (p[0], tuple(p[1]))
+                    if want != "bad" and got != want:
+                        ctx.disagree("VcfReader(phases=True) vs independent decoder (multi-sample)", case, str(got), str(want))
+        if any(p is not None for _, _, rows in res["tables"] for _, _, _, calls in rows for _, p, _ in calls):
+            ctx.nontrivial(("file-read", case["gen_seed"], P[-6:]))
+
+    # ---- 2. PhasedInputReader: the phase files as pseudo reads for the variants of V
+    try:
+        with VcfReader(b["V"], only_snvs=os_) as rv:
+            vtables = list(rv)
+    except Exception as e:  # noqa: BLE001 - an unsorted variant file: nothing to ask the PhasedInputReader for
+        ctx.dist("file_V_unreadable", type(e).__name__)
+        vtables = []
+    queries, qmeta = [], []
+    for t in vtables:
+        for s in b["samples"]:
+            gts = t.genotypes_of(s)
+            inv = [v for v, g in zip(t.variants, gts) if not g.is_none() and not g.is_homozygous()]
+            if rng.random() < 0.25:
+                inv = [v for v in t.variants if rng.random() < 0.7]           # any variant list is a legal argument
+            queries.append((t.chromosome, inv, s))
+            qmeta.append([[v.position, v.reference_allele, v.alternative_allele] for v in inv])
+    real_pi, ids = F.real_phase_input(b["P"], os_, queries)
+    ctx.evaluated()
+    if isinstance(real_pi, dict):
+        if all_ok:
+            ctx.disagree("PhasedInputReader.read_vcfs raises although every file reads", case, real_pi, "ok")
+    elif not all_ok:
+        ctx.disagree("PhasedInputReader.read_vcfs accepts files the reader rejects", case, "ok", [a.get("error") for a in lean_tables])
+    else:
+        files = [F.ptables(ans, recs, psamples, os_) for ans, (psamples, recs) in zip(lean_tables, parsed)]
+        reqs = [{"op": "c09.phaseinput", "files": files, "nPaths": 0, "chrom": chrom, "sample": s, "sampleId": r["sample_id"],
+                 "inputVariants": iv} for (chrom, _, s), iv, r in zip(queries, qmeta, real_pi)]
+        n_reads = 0
+        for (chrom, _, s), r, ans in zip(queries, real_pi, ctx.model.ask_many(reqs)):
+            if "crash" in r:
+                h.fail(f"PhasedInputReader.read({chrom}, …, {s}) raises {r['crash']} on phase-input VCFs that whatshap's reader accepts",
+                       "phase-input-crash", "P")
+                continue
+            if "reads" not in ans:
+                ctx.disagree("c09.phaseinput", case, "ok", ans); continue
+            lean = sorted([x["name"], x["source_id"], x["sample_id"], x["variants"]] for x in ans["reads"])
+            n_reads += len(lean)
+            if lean != r["reads"] or sorted(ans["source_ids"]) != r["source_ids"]:
+                ctx.disagree("c09.phaseinput", case, {"chrom": chrom, "sample": s, "reads": r["reads"][:4], "src": r["source_ids"]},
+                             {"reads": lean[:4], "src": ans["source_ids"]})
+            if not r["sorted"]:
+                h.fail(f"PhasedInputReader.read({chrom}, {s}) returns a read set that is not sorted by first position", "readset-unsorted", "P")
+            # direct statement per file (the property's reading of a phase input): the reads of file i are its phase sets
+            # restricted to the shared heterozygous variants
+        ctx.dist("file_pseudo_reads", min(n_reads, 40) // 4 * 4)
+        if n_reads:
+            ctx.nontrivial(("file-pi", case["gen_seed"]))
+
+    # ---- 3. the writer on the first phase file (it carries phase information of every kind already)
+    psamples, recs = parsed[0]
+    targets = [s for s in psamples if not case["sample_subset"] or rng.random() < 0.6] or psamples[:1]
+    rng.shuffle(targets)
+    chroms = sorted({r["chrom"] for r in recs})
+    chroms_on = [c for c in chroms if not case["chrom_subset"] or rng.random() < 0.5]
+    plan = F.gen_plan(rng, recs, psamples, targets, chroms_on)
+    out = os.path.join(d, "W.vcf")
+    rm, tag = case["rm"], case["tag"]
+    err = F.real_write(b["P"][0], out, tag, os_, rm, plan)
+    ctx.evaluated()
+    ctx.dist("file_writer", ("rm" if rm else "keep") + "/" + tag + ("/err" if err else ""))
+    cfg = {"tag": tag, "onlySnvs": os_, "mav": False, "repaired": True, "samples": psamples, "targets": []}
+    blocks = R.chrom_blocks(recs)
+    if rm:
+        # chromosome names may repeat (split contig): the model's cfgOf is keyed by name, and so is the plan
+        req = {"op": "c09.writefile", "cfg": cfg,
+               "groups": [{"chrom": c, "targets": ts, "records": [R.model_record(recs[i], psamples) for i in idxs]}
+                          for (c, ts), (_, idxs) in zip(plan, blocks)]}
+        ans = ctx.model.ask_many([req])[0]
+        mrecs = [(r, None) for g in ans for r in g["records"]] if isinstance(ans, list) else None
+        merr = None
+        if isinstance(ans, list):
+            xs = ctx.model.ask_many([{"op": "c09.writex", "rm": True, "cfg": dict(cfg, targets=ts),
+                                      "records": [R.model_record(recs[i], psamples) for i in idxs]} for (c, ts), (_, idxs) in zip(plan, blocks)])
+            merr = any(o["err"] for x in xs for o in x)
+            if [o["record"] for x in xs for o in x] != [r for r, _ in mrecs]:
+                ctx.disagree("c09.writefile vs c09.writex(rm=true)", case, "writeFile", "writeChromX true")
+    else:
+        import inspect
+        from whatshap.vcf import PhasedVcfWriter
+        # fixes/F65.patch present in the working tree?  (keep mode: a call phased anew first loses its old phase information)
+        f65 = "self._remove_existing_phasing(record, [sample])" in inspect.getsource(PhasedVcfWriter.write)
+        ctx.dist("file_keep_mode_code", "F65-fixed" if f65 else "as-coded")
+        xs = ctx.model.ask_many([{"op": "c09.writex", "rm": False, "f65": f65, "cfg": dict(cfg, targets=ts),
+                                  "records": [R.model_record(recs[i], psamples) for i in idxs]} for (c, ts), (_, idxs) in zip(plan, blocks)])
+        mrecs = [(o["record"], None) for x in xs for o in x]
+        merr = any(o["err"] for x in xs for o in x)
+    if err and err.startswith("refused:"):
+        ctx.observe("PhasedVcfWriter refuses the input file: " + err[8:60])
+    elif err and err.startswith("crash:"):
+        h.fail(f"PhasedVcfWriter.write raises {err[6:]}", "writer-crash", "W")
+    elif err or merr:
+        if bool(err) != bool(merr):
+            ctx.disagree("writer KeyError (record without GT)", case, err, merr)
+    elif mrecs is None:
+        ctx.disagree("c09.writefile", case, "ok", ans)
+    else:
+        try:
+            _, _, rout = R.load_vcf(out)
+        except (OSError, ValueError) as e:
+            if not rm and tag == "HP":
+                # a target call that keeps its old phased GT gets no HP value at all when HP is new in the record: NUL byte
+                # (F21 again); not reachable from a command line (haplotagphase always writes PS)
+                ctx.observe("remove_existing_phasing=False with tag HP: output unparsable (HP never set for a call that keeps its phase)")
+            else:
+                h.fail(f"output of PhasedVcfWriter.write cannot be parsed by htslib ({e})", "output-unparsable", "W")
+            rout = None
+        if rout is not None:
+            if len(rout) != len(mrecs):
+                ctx.disagree("c09.write* (record count)", case, len(rout), len(mrecs))
+            else:
+                for i, (ro, (mr, _)) in enumerate(zip(rout, mrecs)):
+                    diff = F.record_diff(R.model_record(ro, psamples), mr)
+                    if diff:
+                        ctx.disagree("c09.writefile" if rm else "c09.writex(rm=false)", case,
+                                     {"record": i, "pos": ro["pos"], "impl": diff[0]}, {"model": diff[1]})
+                        break
+            if all(recs[a]["pos"] <= recs[b]["pos"] for _, idxs in blocks for a, b in zip(idxs, idxs[1:])):
+                # (an unsorted variant file never reaches the writer: `whatshap phase` reads it first and raises VcfNotSortedError)
+                file_writer_oracle(h, case, recs, rout, psamples, targets, plan, rm, tag, os_)
+    ctx.sample({"case": case, "fails": h.fails})
+    if not os.environ.get("C09_KEEP"):
+        shutil.rmtree(d, ignore_errors=True)
+
+
+def file_writer_oracle(h, case, rin, rout, samples, targets, plan, rm, tag, only_snvs):
+    """the property on the writer's output for arbitrary super-reads / components: with removal, a target call decodes to
+    exactly what this call of write() had to state (nothing on a chromosome written with empty super-reads: there the
+    record must be unchanged); without removal (haplotagphase) a call that is not phased anew keeps what it had"""
+    elig = eligible_first(rin, only_snvs)
+    by_rec = {}
+    for (chrom, ts), (_, idxs) in zip(plan, R.chrom_blocks(rin)):
+        for i in idxs:
+            by_rec[i] = ts
+    n_written = 0
+    for i, (ri, ro) in enumerate(zip(rin, rout)):
+        ts = {t["name"]: t for t in by_rec[i]}
+        for si, s in enumerate(samples):
+            before, after = indep_decode(ri, si), indep_decode(ro, si)
+            if s not in ts and "PS" not in ri["format"] and "PS" in ro["format"] and before[1] is not None and after[1] is not None:
+                # a phased GT without a PS key is block 0 for the reader (`call.get("PS", 0)`); once the record has the key
+                # (written for a target) the same call reads as block None: the call itself is unchanged
+                before = (before[0], (None, before[1][1]))
+            if s not in ts:
+                if before != after or ri["calls"][si].get("GT") != ro["calls"][si].get("GT"):
+                    h.fail(f"sample {s} {ri['chrom']}:{ri['pos'] + 1}: not a target of this write() call, but its phase information changed "
+                           f"from {before} to {after}", "non-target-changed", "W")
+                    return
+                continue
+            t = ts[s]
+            want = None
+            if i in elig:
+                comps = dict(map(tuple, t["comps"]))
+                ph = {}
+                for (p0, a), (_, b2) in zip(t["sr0"], t["sr1"]):
+                    if a in (0, 1) and b2 in (0, 1):
+                        ph[p0] = (a, b2)
+                p = ri["pos"]
+                if p in comps and p in ph and ph[p][0] != ph[p][1]:
+                    want = (comps[p] + 1, ph[p])
+            hp, gp = after
+            got = gp if gp is not None else hp
+            if want is not None:
+                n_written += 1
+                if not rm and tag == "HP":
+                    # without removal the genotype is not sorted, and `_set_HP` relies on a sorted genotype (F4b): not reachable
+                    # from a command line (haplotagphase, the only caller with remove_existing_phasing=False, writes PS)
+                    if got != want:
+                        h.ctx.observe("remove_existing_phasing=False with tag HP on an unsorted genotype decodes to the opposite phase")
+                elif got != want or (hp is not None and gp is not None):
+                    if rm or hp is None or gp is None:
+                        h.fail(f"sample {s} {ri['chrom']}:{ri['pos'] + 1}: write() had to state {want}, the call decodes to HP={hp} GT/PS={gp} "
+                               f"(tag {tag}, remove_existing_phasing={rm})", "decode-differs", "W")
+                        return
+            elif rm and (hp is not None or gp is not None):
+                h.fail(f"sample {s} {ri['chrom']}:{ri['pos'] + 1}: decodable phase HP={hp} GT/PS={gp} was not written by this write() call "
+                       f"(tag {tag})", "stale-phase", "W")
+                return
+    if n_written:
+        h.ctx.nontrivial(("file-write", case["gen_seed"]))
+
+
+# ------------------------------------------------------------------------------------------------
+# F65: haplotagphase (the writer with remove_existing_phasing=False) on a file phased with --tag HP
+# ------------------------------------------------------------------------------------------------
+
+def run_haplotagphase_case(ctx, case, n):
+    """phase --tag T -> haplotag -> every second phased call unphased -> haplotagphase: the output must not carry both
+    encodings in one call and whatshap must be able to read it.  On /repo without fixes/F65.patch this fails for T = HP (the
+    writer tags an HP-phased call with PS without removing HP); it is haplotagphase's behaviour (C17's command), so it is
+    recorded as an observation until the patch is in the working tree and checked as a regression from then on."""
+    import gzip, inspect, random
+    import pysam
+    from whatshap.vcf import PhasedVcfWriter
+    f65 = "self._remove_existing_phasing(record, [sample])" in inspect.getsource(PhasedVcfWriter.write)
+    d = os.path.join(ctx.workdir(), f"case{n}")
+    shutil.rmtree(d, ignore_errors=True)
+    os.makedirs(d)
+    rng = random.Random(case["gen_seed"])
+    sc = sim.Scenario(rng, n_variants=(6, 10), depth=(5, 8), read_len=(150, 300))
+    fa, bam, vcf = sc.write(d)
+    tag = case["tag"]
+
+    def run(args):
+        rc, so, se, _ = R.run_whatshap(ctx, args)
+        ctx.evaluated()
+        return rc, se
+    ok = run(["phase", "--tag", tag, "-r", fa, "-o", d + "/ph.vcf", vcf, bam])[0] == 0
+    if ok:
+        pysam.tabix_index(d + "/ph.vcf", preset="vcf", force=True)
+        ok = run(["haplotag", "-r", fa, "-o", d + "/tag.bam", d + "/ph.vcf.gz", bam])[0] == 0
+    if ok:
+        pysam.index(d + "/tag.bam")
+        lines, k = [], 0
+        for line in gzip.open(d + "/ph.vcf.gz", "rt"):
+            if not line.startswith("#"):
+                c = line.rstrip("\n").split("\t")
+                keys, v = c[8].split(":"), c[9].split(":")
+                if tag == "HP" and "HP" in keys and v[keys.index("HP")] not in (".", ""):
+                    k += 1
+                    if k % 2 == 0:
+                        v[keys.index("HP")] = "."
+                elif tag == "PS" and "|" in v[0]:
+                    k += 1
+                    if k % 2 == 0:
+                        v[0] = "/".join(sorted(v[0].split("|")))
+                        v[keys.index("PS")] = "."
+                c[9] = ":".join(v); line = "\t".join(c) + "\n"
+            lines.append(line)
+        open(d + "/part.vcf", "w").write("".join(lines))
+        pysam.tabix_index(d + "/part.vcf", preset="vcf", force=True)
+        rc, se = run(["haplotagphase", "-r", fa, "-o", d + "/re.vcf", d + "/part.vcf.gz", d + "/tag.bam"])
+        ok = rc == 0
+    ctx.dist("haplotagphase_after_tag", tag + ("" if ok else "/no-run"))
+    if ok:
+        _, samples, recs = R.load_vcf(d + "/re.vcf")
+        both = [r["pos"] + 1 for r in recs if all(x is not None for x in indep_decode(r, 0))]
+        wr = whatshap_read(d + "/re.vcf", samples[0], False)
+        if both or isinstance(wr, tuple):
+            what = (f"phase --tag {tag} -> haplotag -> partial unphase -> haplotagphase: calls at {both[:6]} carry HP and a phased GT/PS "
+                    f"at once; whatshap's reader on the output: {wr[1] if isinstance(wr, tuple) else 'ok'}")
+            if f65:
+                ctx.fail(what, case, key="haplotagphase-mixed")
+            else:
+                ctx.observe("F65 (fixes/F65.patch not in the working tree): haplotagphase on HP-encoded input writes both encodings into "
+                            "one call; whatshap rejects the output with MixedPhasingError")
+        elif any(v is not None for v in wr.values()):
+            ctx.nontrivial(("haplotagphase", case["gen_seed"], tag))
+    shutil.rmtree(d, ignore_errors=True)
+
+
 def run(ctx):
     cases = [c for _, c in ctx.corpus()]
     if ctx.replay:
         cases = [json.load(open(ctx.replay))["case"]]
     n = 0
     for c in cases:
-        (run_interleaved if c.get("kind") == "interleaved" else run_case)(ctx, c, n); n += 1
+        {"interleaved": run_interleaved, "file": run_file_case, "haplotagphase": run_haplotagphase_case}.get(c.get("kind"), run_case)(ctx, c, n); n += 1
     if ctx.replay:
         return
-    for _ in range((8 if ctx.quick else 60) * ctx.scale):
+    streams = os.environ.get("C09_STREAMS", "hist,inter,table,file,htp").split(",")     # development aid: run a subset of the streams
+    for _ in range((8 if ctx.quick else 60) * ctx.scale if "hist" in streams else 0):
         run_case(ctx, gen_case(ctx.rng, scale=1 if ctx.quick else 2), n); n += 1
     # generator-written phase inputs with interleaved / nested phase sets: run Q + in-process pseudo reads
-    for _ in range((6 if ctx.quick else 60) * ctx.scale):
+    for _ in range((6 if ctx.quick else 60) * ctx.scale if "inter" in streams else 0):
         run_interleaved(ctx, gen_interleaved_case(ctx.rng), n); n += 1
-    for _ in range((30 if ctx.quick else 600) * ctx.scale):
+    for _ in range((30 if ctx.quick else 600) * ctx.scale if "table" in streams else 0):
         run_interleaved(ctx, gen_interleaved_case(ctx.rng, cli=False), n); n += 1
+    for _ in range((80 if ctx.quick else 2500) * ctx.scale if "file" in streams else 0):
+        run_file_case(ctx, gen_file_case(ctx.rng, ctx.quick), n); n += 1
+    for k in range((2 if ctx.quick else 20) * ctx.scale if "htp" in streams else 0):
+        run_haplotagphase_case(ctx, {"kind": "haplotagphase", "gen_seed": ctx.rng.randrange(1 << 40), "tag": ["HP", "PS"][k % 2]}, n); n += 1
+    if os.environ.get("C09_DEBUG"):                     # development aid: all disagreements, not only the first
+        import collections
+        cnt = collections.Counter(op for op, _, _, _ in ctx.disagreements)
+        print("C09_DEBUG", dict(cnt))
+        seen = set()
+        for op, case, impl, model in ctx.disagreements:
+            if op not in seen:
+                seen.add(op)
+                print("C09_DEBUG", op, "seed", case.get("gen_seed"), "\n   impl:", str(impl)[:700], "\n  model:", str(model)[:700])
     try:
         os.rmdir(ctx.workdir())
     except OSError:
